@@ -137,23 +137,77 @@ func runC13(c *Ctx) {
 			arms := map[byte]string{'d': "CopyData", 'c': "CopyDone", 'f': "CopyFail", 'H': "Flush", 'S': "Sync"}
 			errE := c.Err()
 			seenArm := map[byte]bool{}
-			for _, ret := range returns(read) {
-				ev := errOperand(ret)
-				cls := errE.Classify(ev, ret.Block())
-				// which arm is this return in?
-				arm := byte(0)
+			// the dispatch may be a step of its own: a method that is handed the type and answers (skip, err) - Read
+			// returns err unless skip, and reads the next message otherwise
+			disp, dispTyped := read, typed
+			var dispCall *ssa.Call
+			skipIdx, errIdx := -1, -1
+			for _, r := range core.Referrers(typed) {
+				call, isCall := r.(*ssa.Call)
+				if !isCall {
+					continue
+				}
+				h := core.StaticCallee(call)
+				if h == nil || !c.P.InPkg(h, "wire") || h.Blocks == nil || h.Signature.Results().Len() != 2 {
+					continue
+				}
+				si, ei := -1, -1
+				for i := 0; i < 2; i++ {
+					t := h.Signature.Results().At(i).Type()
+					if core.IsErrorType(t) {
+						ei = i
+					} else if bt, isB := t.Underlying().(*types.Basic); isB && bt.Kind() == types.Bool {
+						si = i
+					}
+				}
+				for i, a := range call.Call.Args {
+					if a == typed && si >= 0 && ei >= 0 && i < len(h.Params) {
+						disp, dispTyped, dispCall, skipIdx, errIdx = h, h.Params[i], call, si, ei
+					}
+				}
+			}
+			armOf := func(ret *ssa.Return) (arm byte, isDefault bool) {
+				if ret.Parent() != disp {
+					return 0, false // before the dispatch
+				}
 				for k := range arms {
-					if anyDominates(constEqEdges(typed, int64(k), true), ret.Block()) {
+					if anyDominates(constEqEdges(dispTyped, int64(k), true), ret.Block()) {
 						arm = k
 					}
 				}
-				isDefault := arm == 0
+				isDefault = arm == 0
 				if isDefault {
 					for k := range arms {
-						if !anyDominates(constEqEdges(typed, int64(k), false), ret.Block()) {
+						if !anyDominates(constEqEdges(dispTyped, int64(k), false), ret.Block()) {
 							isDefault = false
 						}
 					}
+				}
+				if arm == 0 && !isDefault {
+					// `case Flush, Sync:` - a block reachable through those two edges only
+					var only []edge
+					only = append(only, constEqEdges(dispTyped, int64('H'), true)...)
+					only = append(only, constEqEdges(dispTyped, int64('S'), true)...)
+					if len(only) > 0 && !reachableWithoutEdges(disp, ret.Block(), only) {
+						arm = 'H'
+					}
+				}
+				return
+			}
+			// outcome of one return of the dispatching function (skip: the dispatch step asks for the next message)
+			outcome := func(ret *ssa.Return, ev ssa.Value, skip bool) {
+				cls := errE.Classify(ev, ret.Block())
+				arm, isDefault := armOf(ret)
+				if skip {
+					if arm == 'H' || arm == 'S' {
+						return
+					}
+					name := arms[arm]
+					if name == "" {
+						name = "other"
+					}
+					R.Fail("C13.R2", "(*CopyReader).Read:"+name+"-skipped", c.at(ret), "only Flush and Sync are ignored during COPY-in", "the "+name+" arm asks for the next message: the payload, the end of the stream or the abort is dropped")
+					return
 				}
 				// end of stream (io.EOF) means CopyDone and nothing else: a connection that ends, or any other failure, in
 				// the middle of the COPY must not look like a clean end to the handler
@@ -170,7 +224,7 @@ func runC13(c *Ctx) {
 				case arm == 'f':
 					org := c.errOrigins(ev)
 					if org[oMalformed] && len(org) == 1 {
-						continue // malformed CopyFail body
+						return // malformed CopyFail body
 					}
 					seenArm['f'] = true
 					R.Check(cls == core.CNonNil, "C13.R2", "(*CopyReader).Read:CopyFail", c.at(ret), "CopyFail surfaces as a non-nil, non-EOF error", "error class "+cls.String(), "the CopyFail arm returns error class "+cls.String()+": the handler can see success or end-of-stream after the client aborted")
@@ -181,6 +235,65 @@ func runC13(c *Ctx) {
 					R.Check(cls == core.CNonNil, "C13.R2", "(*CopyReader).Read:other-message", c.at(ret), "any non-COPY message surfaces as a non-nil, non-EOF error", "error class "+cls.String(), "the default arm returns error class "+cls.String())
 				}
 			}
+			var readCall ssa.Instruction
+			for _, ci := range core.Calls(read) {
+				if isReaderMethod(ci, "ReadTypedMsg") {
+					readCall = ci
+				}
+			}
+			reachesRead := func(from *ssa.BasicBlock) bool {
+				for b := range reachableAvoiding(from, func(*ssa.BasicBlock) bool { return false }) {
+					if readCall != nil && b == readCall.Block() {
+						return true
+					}
+				}
+				return false
+			}
+			if dispCall == nil {
+				for _, ret := range returns(read) {
+					outcome(ret, errOperand(ret), false)
+				}
+			} else {
+				R.Analysed(fname(disp))
+				skipV, errV := resultOf(dispCall, skipIdx), resultOf(dispCall, errIdx)
+				stop, goOn := boolEdges(skipV, false), boolEdges(skipV, true)
+				// Read's side of the contract
+				okStop, okGo := len(stop) > 0, len(goOn) > 0
+				for _, ret := range returns(read) {
+					switch {
+					case anyDominates(stop, ret.Block()):
+						if errOperand(ret) != errV {
+							okStop = false
+						}
+					case anyDominates(goOn, ret.Block()):
+						okGo = false
+					case dispCall.Block().Dominates(ret.Block()):
+						okStop = false // a return after the dispatch that is on neither edge
+					default:
+						outcome(ret, errOperand(ret), false) // before the dispatch: the failed read
+					}
+				}
+				for _, e := range goOn {
+					if !reachesRead(e.to()) {
+						okGo = false
+					}
+				}
+				for _, e := range stop {
+					if reachesRead(e.to()) {
+						okStop = false
+					}
+				}
+				R.Check(okStop && okGo, "C13.R2", "(*CopyReader).Read:dispatch-step-contract", c.at(dispCall), "Read returns the dispatch step's error unless the step asks for the next message, and then reads on", "the not-skip edge returns the step's error and never reads again; the skip edge leads back to the read and to no return", sprintf("Read does not follow the (skip, err) answer of %s: stop edge returns the step's error: %v, skip edge reads on: %v", fkey(disp), okStop, okGo))
+				// the step's side: what each arm answers
+				for _, ret := range returns(disp) {
+					skip, isConst := core.ConstBool(ret.Results[skipIdx])
+					if !isConst {
+						R.Fail("C13.R2", "(*CopyReader).Read:dispatch-step-skip:"+retDescr(ret), c.at(ret), "each arm of the dispatch step says whether the message is skipped", "the skip result of this return is not a constant (undecided)")
+						continue
+					}
+					outcome(ret, ret.Results[errIdx], skip)
+				}
+			}
 			for _, k := range []byte{'d', 'c', 'f', 0} {
 				name := arms[k]
 				if k == 0 {
@@ -189,24 +302,16 @@ func runC13(c *Ctx) {
 				R.Check(seenArm[k], "C13.R2", "(*CopyReader).Read:arm-exists:"+name, c.atFn(read), "Read has an outcome for "+name+" messages", "a return dominated by that arm's edge exists", "no return is attributed to the "+name+" arm: the dispatch changed shape (undecided)")
 			}
 			// every CopyData message is delivered: the CopyData arm never loops back to read the next message
-			var readCall ssa.Instruction
-			for _, ci := range core.Calls(read) {
-				if isReaderMethod(ci, "ReadTypedMsg") {
-					readCall = ci
+			if dispCall == nil {
+				for _, e := range constEqEdges(typed, int64('d'), true) {
+					R.Check(!reachesRead(e.to()), "C13.R2", "(*CopyReader).Read:CopyData-always-delivered", c.at(e.to().Instrs[0]), "every CopyData payload is handed to the handler (none is skipped, whatever its content)", "no path from the CopyData arm leads back to the next ReadTypedMsg", "a path from the CopyData arm continues with the next message: some CopyData payloads are silently dropped")
 				}
-			}
-			for _, e := range constEqEdges(typed, int64('d'), true) {
-				back := false
-				for b := range reachableAvoiding(e.to(), func(*ssa.BasicBlock) bool { return false }) {
-					if readCall != nil && b == readCall.Block() {
-						back = true
-					}
-				}
-				R.Check(!back, "C13.R2", "(*CopyReader).Read:CopyData-always-delivered", c.at(e.to().Instrs[0]), "every CopyData payload is handed to the handler (none is skipped, whatever its content)", "no path from the CopyData arm leads back to the next ReadTypedMsg", "a path from the CopyData arm continues with the next message: some CopyData payloads are silently dropped")
+			} else {
+				R.OK("C13.R2", "(*CopyReader).Read:CopyData-always-delivered", c.at(dispCall), "every CopyData payload is handed to the handler (none is skipped, whatever its content)", "every return of the CopyData arm of "+fkey(disp)+" answers skip = false (checked per return), and Read returns on that answer")
 			}
 			// Flush / Sync arms exist and lead back into the loop
 			for _, k := range []byte{'H', 'S'} {
-				es := constEqEdges(typed, int64(k), true)
+				es := constEqEdges(dispTyped, int64(k), true)
 				R.Check(len(es) > 0, "C13.R2", "(*CopyReader).Read:ignores:"+arms[k], c.atFn(read), arms[k]+" is recognised and ignored during COPY-in", "a comparison with the constant exists and no return is attributed to it", arms[k]+" is not recognised: it would abort the COPY as a foreign message")
 			}
 		}
@@ -415,4 +520,37 @@ func (c *Ctx) errorCodeClosesCycle(rule string) {
 		}
 	}
 	R.Check(nDone > 0 && tc.Events["M:E"] > 0 && tc.Events["M:Z"] > 0, rule, "ErrorCode:report-automaton", c.atFn(ec), "every path of ErrorCode that is not a failed write sends ErrorResponse then ReadyForQuery", sprintf("%d exit outcomes, %d complete; events %v", len(outs), nDone, tc.Events), "no path of ErrorCode completes the report (ErrorResponse, ReadyForQuery)")
+}
+
+// reachableWithoutEdges: target can be reached from the entry of fn on a path that uses none of the given edges.
+func reachableWithoutEdges(fn *ssa.Function, target *ssa.BasicBlock, cut []edge) bool {
+	if len(fn.Blocks) == 0 {
+		return false
+	}
+	isCut := func(b *ssa.BasicBlock, i int) bool {
+		for _, e := range cut {
+			if e.from == b && e.idx == i {
+				return true
+			}
+		}
+		return false
+	}
+	seen := map[*ssa.BasicBlock]bool{}
+	var walk func(b *ssa.BasicBlock) bool
+	walk = func(b *ssa.BasicBlock) bool {
+		if b == target {
+			return true
+		}
+		if seen[b] {
+			return false
+		}
+		seen[b] = true
+		for i, sc := range b.Succs {
+			if !isCut(b, i) && walk(sc) {
+				return true
+			}
+		}
+		return false
+	}
+	return walk(fn.Blocks[0])
 }
